@@ -223,6 +223,7 @@ def c01_rf18(run):
     rf_flow.rf43(run)
     rf_flow.rf44(run)
     rf_fold.rf49(run)
+    rf_flow.rf52(run)
 
 
 def c04_rf18(run):
@@ -276,6 +277,7 @@ def c14_rf16f(run):
     rf_dispatch.rf7f(run)
     rf_proto.rf16d(run)
     run.min_instances('RF16d', 8)
+    rf_flow.rf53(run)
 
 
 def c02_rf7a(run):
@@ -304,6 +306,8 @@ def c03_rf11(run):
     rf_flow.rf33(run)
     rf_iface.rf42(run)
     rf_iface.rf47(run)
+    rf_flow.rf52(run)
+    rf_flow.rf53(run)
 
 
 def c06_rf11(run):
